@@ -10,7 +10,7 @@ from hypothesis import strategies as st
 
 from vfw import gen_truth, gen_params, model_master, model_pest, tree
 from vfw import dataset
-from vfw.core import Part, Violation, Reject, guarded
+from vfw.core import Part, Violation, Reject, guarded, load_output_yaml
 from vfw.pipeline import Workflow
 from vfw.props.C06 import read_curve
 
@@ -261,10 +261,11 @@ def check_files(case):
                 files[(what, kind)] = guarded(
                     wf.pestfiles, what, wild, kind)
         rise_vec = guarded(wf.simulate, 'rise', sane, True)
-        rise_tab = yaml.safe_load(guarded(wf.simulate, 'rise', sane, False))
+        rise_tab = load_output_yaml(
+            guarded(wf.simulate, 'rise', sane, False), 'rise-table')
         rec_vec = guarded(wf.simulate, 'recession', sane, True)
-        rec_tab = yaml.safe_load(
-            guarded(wf.simulate, 'recession', sane, False))
+        rec_tab = load_output_yaml(
+            guarded(wf.simulate, 'recession', sane, False), 'recession-table')
     n_rise, n_rec = len(rise_view), len(rec_view)
     for what in ('rise', 'curves'):
         obs_lines = check_template(
@@ -425,7 +426,7 @@ def check_values(case):
                 'pst', None, pst)
     finally:
         connection.close()
-    rows = yaml.safe_load(tab.getvalue())[1:]
+    rows = load_output_yaml(tab.getvalue(), 'rise-table')[1:]
     simulated = [r[2] for r in rows]
     measured = [r[1] for r in rows]
     if measured != values:
